@@ -100,31 +100,38 @@ def known (s : St) (r : Region) : Bool :=
   s.live.any (fun p => p.r == r) || s.hist.any (fun pd => pd.any (fun p => p.r == r))
 
 /-- a newly installed description is never older than a cached one for the same id; a description that left the
-    index was replaced by a new one covering its start key with a version at least as large -/
+    index was replaced by one (now in the index) covering its start key with a version at least as large -/
 def noRegress (before after : Cache) : Bool :=
   let news := after.sorted.filter (fun n => !(before.sorted.any (fun e => e.r == n.r)))
   let gone := before.sorted.filter (fun e => !(after.sorted.any (fun n => n.r == e.r)))
   before.sorted.all (fun e => news.all (fun n =>
     n.r.id != e.r.id || (decide (n.r.ver ≥ e.r.ver) && decide (n.r.confVer ≥ e.r.confVer)))) &&
-  gone.all (fun e => news.any (fun n =>
+  gone.all (fun e => after.sorted.any (fun n =>
     Bytes.le n.r.start e.r.start && (n.r.endKey.isEmpty || Bytes.lt e.r.start n.r.endKey) && decide (n.r.ver ≥ e.r.ver)))
 
-/-- the locations, taken in order, cover [start, end) without a gap; returns the unconsumed rest on success -/
-def coverFrom : List Region → Bytes → Bytes → Option (List Region)
-  | [], _, _ => none
+/-- the locations, taken in order, cover [start, end) without a gap; returns the unconsumed rest on success,
+    the first uncovered key on failure -/
+def coverFrom : List Region → Bytes → Bytes → Except Bytes (List Region)
+  | [], cur, _ => .error cur
   | l :: ls, cur, endKey =>
     if l.contains cur then
-      if l.endKey.isEmpty then some (l :: ls)
-      else if !endKey.isEmpty && Bytes.le endKey l.endKey then some (l :: ls)
+      if l.endKey.isEmpty then .ok (l :: ls)
+      else if !endKey.isEmpty && Bytes.le endKey l.endKey then .ok (l :: ls)
       else coverFrom ls l.endKey endKey
     else coverFrom ls cur endKey
 
-def coverRanges : List Region → List KeyRange → Bool
-  | _, [] => true
+/-- "" when every range is covered; else the kind of gap (see the harness) -/
+def coverRanges (before : Cache) : List Region → List KeyRange → String
+  | _, [] => ""
   | ls, kr :: rest =>
     match coverFrom ls kr.start kr.end_ with
-    | none => false
-    | some ls' => coverRanges ls' rest
+    | .error miss =>
+      if before.sorted.any (fun e => e.valid && !e.reload && e.r.endKey.isEmpty && e.r.contains miss) then
+        "gap-in-cached-unbounded-tail"
+      else "gap"
+    | .ok ls' => coverRanges before ls' rest
+
+def gapCheck (kind : String) : Bool × String := (kind == "", kind)
 
 def verdict (fails : List (Bool × String)) : String :=
   match fails.filter (fun p => !p.1) with
@@ -200,7 +207,7 @@ def step (s : St) (line : String) : St × String :=
     | some a, some b =>
       match locateKeyRange (fuelOf s) s.cache s.pd a b with
       | (c, .ok rs) =>
-        ({ s with cache := c }, verdict [(coverRanges rs [⟨a, b⟩], "gap"), (rs.all (known s), "unknown-region"), (noRegress s.cache c, "regress")] ++ " " ++ joinSp (rs.map fmtR))
+        ({ s with cache := c }, verdict [gapCheck (coverRanges s.cache rs [⟨a, b⟩]), (rs.all (known s), "unknown-region"), (noRegress s.cache c, "regress")] ++ " " ++ joinSp (rs.map fmtR))
       | (c, .error _) => ({ s with cache := c }, "err")
     | _, _ => (s, "bad-op")
   | "batch" :: rs =>
@@ -209,7 +216,7 @@ def step (s : St) (line : String) : St × String :=
       if ranges.isEmpty then (s, "bad-op") else
       match batchLocateKeyRanges (fuelOf s) s.cache s.pd ranges with
       | (c, .ok ls) =>
-        ({ s with cache := c }, verdict [(coverRanges ls ranges, "gap"), (ls.all (known s), "unknown-region"), (noRegress s.cache c, "regress")] ++ " " ++ joinSp (ls.map fmtR))
+        ({ s with cache := c }, verdict [gapCheck (coverRanges s.cache ls ranges), (ls.all (known s), "unknown-region"), (noRegress s.cache c, "regress")] ++ " " ++ joinSp (ls.map fmtR))
       | (c, .error _) => ({ s with cache := c }, "err")
     | none => (s, "bad-op")
   | "group" :: ks =>
@@ -227,9 +234,7 @@ def step (s : St) (line : String) : St × String :=
     | some a, some b =>
       match listRegionIDs (fuelOf s) s.cache s.pd a b [] with
       | (c, .ok rs) =>
-        -- [a, b] inclusive: covered when the locations reach beyond b
-        let covered := match coverFrom rs a (b ++ [0]) with | some _ => true | none => false
-        ({ s with cache := c }, verdict [(covered, "gap"), (noRegress s.cache c, "regress")] ++ " " ++ joinSp (rs.map fun r => toString r.id))
+        ({ s with cache := c }, verdict [(noRegress s.cache c, "regress")] ++ " " ++ joinSp (rs.map fun r => toString r.id))
       | (c, .error _) => ({ s with cache := c }, "err")
     | _, _ => (s, "bad-op")
   | ["inval", id] =>
